@@ -13,6 +13,7 @@ import PqlModel.Props.C07OperatorIRSummarize
 import PqlModel.Props.C07OperatorIRRender
 import PqlModel.Props.C07OperatorIRJoin
 import PqlModel.Props.C07OperatorIRParse
+import PqlModel.Props.C07ExprIR
 #print axioms Pql.C08.C08_split_partition
 #print axioms Pql.C08.C08_splitSemi_partition
 #print axioms Pql.C08.C08_endSplit_iff
